@@ -220,6 +220,42 @@ theorem centers_neighbors_consistent (s : Shape) (m : Vox → Bool) (r thr : K) 
   refine List.mem_map.mpr ⟨c, (mem_neighborsAlgo (K := K)).mpr ⟨hin, hr, ?_⟩, rfl⟩
   rw [sqDist_self]; simpa using mul_pos hr hr
 
+/-! ### 3a. order structure of accepted centres (session 3) -/
+
+/-- a stricter threshold never accepts a new centre: for every volume, mask and radius the
+    accepted centres at `thr'` are among those at `thr ≤ thr'` -/
+theorem centers_antitone_threshold (s : Shape) (m : Vox → Bool) (r thr thr' : K) (h : thr ≤ thr')
+    (c : Vox) : c ∈ goodCenters s m r thr' → c ∈ goodCenters s m r thr := by
+  rw [centers_exact, centers_exact]
+  rintro ⟨h1, h2, h3, h4⟩
+  exact ⟨h1, h2, h3, le_trans h h4⟩
+
+/-- a larger mask (pointwise) accepts every centre the smaller one accepts -/
+theorem centers_mono_mask (s : Shape) (m m' : Vox → Bool) (hm : ∀ v, m v = true → m' v = true)
+    (r thr : K) (c : Vox) : c ∈ goodCenters s m r thr → c ∈ goodCenters s m' r thr := by
+  rw [centers_exact, centers_exact]
+  rintro ⟨h1, h2, h3, h4⟩
+  refine ⟨h1, hm c h2, h3, le_trans h4 ?_⟩
+  have hc : (neighborsSpec s (ctrOf c) r).countP m ≤ (neighborsSpec s (ctrOf c) r).countP m' :=
+    List.countP_mono_left (fun v _ hv => hm v hv)
+  have hpos : (0 : K) < (((neighborsSpec s (ctrOf c) r).length : Nat) : K) :=
+    Nat.cast_pos.mpr (Nat.pos_of_ne_zero h3)
+  exact div_le_div_of_nonneg_right (Nat.cast_le.mpr hc) (le_of_lt hpos)
+
+/-- every accepted centre lies in its own (non-empty) searchlight -/
+theorem center_in_own_searchlight (s : Shape) (m : Vox → Bool) (r thr : K) (c : Vox)
+    (hc : c ∈ goodCenters s m r thr) : c ∈ neighborsAlgo s (ctrOf c) r := by
+  rw [centers_exact] at hc
+  obtain ⟨h1, _, h3, _⟩ := hc
+  have h0 : 0 < r := by
+    by_contra hr
+    have := nonpos_radius_empty s (ctrOf c) r (not_lt.mp hr)
+    have hl := (neighborsAlgo_perm_spec s (ctrOf c) r).length_eq
+    rw [this] at hl
+    exact h3 hl.symm
+  rw [mem_neighborsAlgo, sqDist_self]
+  exact ⟨h1, h0, by simpa using mul_pos h0 h0⟩
+
 /-! ### 3b. boundary cases of radius and threshold (corollaries, all sizes) -/
 
 /-- radius `≤ 1` (and positive): the searchlight of an in-volume centre is the centre alone -/
